@@ -17,12 +17,17 @@
    [Stl s]   every constraint left in set i is settled: re-checking it is a
              no-op.
    [Dom s t] the cells of t refine those of s.
-   The specifications [SP] of check_constraints / fulfill / below / bind on
-   this fragment say, for an arbitrary [t] with [Fin t] (= Inv, T2 s0 t, Stl:
-   what the successful run of ANOTHER schedule ends in): a run from a state
-   that dominates t ends in a state that dominates t, and fails only for lack
-   of fuel.  Two successful runs therefore end in stores that dominate each
-   other - the same cells - and the records and the set follow ([Fin_unique]). *)
+   The specifications [SP_cc] / [SP_ful] / [SP_below] / [SP_bindb] of
+   check_constraints / fulfill / below / bind on this fragment (one induction on
+   fuel, [SPs_all]) say, for an arbitrary store [t] that is the end of a run
+   ([FinT t] = Step, Pre, T2 s0 t, Stl) whenever some state of the round dominates
+   it: the operation re-establishes the invariants, ends settled, and a run from
+   a state that dominates t ends in a state that dominates t and fails only for
+   lack of fuel.  Two successful runs therefore end in stores that dominate each
+   other - the same cells - and the records and the set are functions of the
+   cells and of s0 ([Fin_unique], [round_unique]).  Equality of the final stores
+   is up to the raw reference of fulfilled elimination constraints ([eqk]), which
+   really depends on the order (SchedIndepElim.ref_refuted). *)
 From Coq Require Import List Arith Bool Lia Permutation.
 Import ListNotations.
 From TF Require Import Base.Hier Base.Ty Sub.SubSpec Infer.Store Infer.Engine Infer.Run
@@ -1894,6 +1899,73 @@ Proof.
   destruct (Q1 c), (Q2 c); auto.
   - symmetry. apply M2, M1. reflexivity.
   - apply M1, M2. reflexivity.
+Qed.
+
+
+(* ---- running a round from (a store with the cells, sets and records of) s0 ---- *)
+Definition startok (s : store) : Prop :=
+  vars s = vars s0 /\ constrs s = constrs s0 /\ csets s = csets s0 /\ inv s.
+
+Lemma start_step s : startok s -> Step s /\ Pre s.
+Proof.
+  intros (Ev & Ek & Ec & I).
+  assert (Ecs : forall j, cset_of s j = cset_of s0 j) by (intros j; unfold cset_of; rewrite Ec; reflexivity).
+  apply (cset_pres s0 s (fun _ => true) Step_refl P0 (conj Ev Ek) (fun j _ => Ecs j)); auto.
+  - rewrite Ecs. symmetry. apply filter_all.
+  - intros c _ X. discriminate.
+  - rewrite Ec. reflexivity.
+Qed.
+
+Lemma start_dom s t : startok s -> T2 s0 t -> Dom s t.
+Proof. intros (Ev & _) T w. rewrite (cell_of_vars s s0 w Ev). apply T. Qed.
+
+Lemma no_dom : exists td, forall s, Step s -> ~ Dom s td.
+Proof.
+  set (cd := mkCell false None (match c_lower (cell_of s0 0) with Some _ => None | None => Some 0 end) None 0).
+  exists (mkStore [cd] [] [] []). intros s Ss D.
+  pose proof (crel_trans _ _ _ (st_cell s Ss 0) (D 0)) as C. apply crel_lower in C.
+  change (cell_of (mkStore [cd] [] [] []) 0) with cd in C. cbn in C.
+  destruct (c_lower (cell_of s0 0)); discriminate.
+Qed.
+
+Lemma round_run f v s t : startok s -> c_cs (cell_of s0 v) = i ->
+  (forall s', Step s' -> Dom s' t -> FinT t) ->
+  wp (check_constraints H f v) s (fun _ s' => FinT s' /\ (Dom s t -> Dom s' t)) (efuel (Dom s t)).
+Proof.
+  intros So Ci FH. destruct (start_step s So) as (Ss & P). pose proof So as (Ev & Ek & _).
+  destruct (SPs_all t FH f f (le_n f)) as (CC & _).
+  eapply wp_conseq; [apply (CC v s Ss P); rewrite (cell_of_vars s s0 v Ev); exact Ci| |auto].
+  intros _ s' ((S' & P' & T') & St & Dm). split; [|exact Dm].
+  split; [exact S'|split; [exact P'|split; [|exact St]]].
+  apply (T2_sameVC_l s0 s s' (conj Ev Ek) T').
+Qed.
+
+Theorem round_unique f1 f2 v s1 s2 : startok s1 -> startok s2 -> c_cs (cell_of s0 v) = i ->
+  match check_constraints H f1 v s1, check_constraints H f2 v s2 with
+  | MOk _ t1, MOk _ t2 => eqk t1 t2
+  | MOk _ _, MEr e _ => e = EFuel
+  | MEr e _, MOk _ _ => e = EFuel
+  | MEr _ _, MEr _ _ => True
+  end.
+Proof.
+  intros So1 So2 Ci. destruct no_dom as (td & Ntd).
+  assert (FHd : forall s', Step s' -> Dom s' td -> FinT td) by (intros s' Ss' D; destruct (Ntd s' Ss' D)).
+  pose proof (round_run f1 v s1 td So1 Ci FHd) as R1. pose proof (round_run f2 v s2 td So2 Ci FHd) as R2.
+  unfold wp in R1, R2.
+  destruct (check_constraints H f1 v s1) as [u1 t1|e1 t1] eqn:E1;
+    destruct (check_constraints H f2 v s2) as [u2 t2|e2 t2] eqn:E2; auto.
+  - destruct R1 as (F1 & _), R2 as (F2 & _).
+    pose proof (round_run f1 v s1 t2 So1 Ci (fun _ _ _ => F2)) as X1. unfold wp in X1. rewrite E1 in X1.
+    pose proof (round_run f2 v s2 t1 So2 Ci (fun _ _ _ => F1)) as X2. unfold wp in X2. rewrite E2 in X2.
+    apply Fin_unique; auto.
+    + apply X1. apply start_dom; [exact So1|apply F2].
+    + apply X2. apply start_dom; [exact So2|apply F1].
+  - destruct R1 as (F1 & _).
+    pose proof (round_run f2 v s2 t1 So2 Ci (fun _ _ _ => F1)) as X2. unfold wp in X2. rewrite E2 in X2.
+    destruct X2 as [X|X]; [exact X|]. exfalso. apply X. apply start_dom; [exact So2|apply F1].
+  - destruct R2 as (F2 & _).
+    pose proof (round_run f1 v s1 t2 So1 Ci (fun _ _ _ => F2)) as X1. unfold wp in X1. rewrite E1 in X1.
+    destruct X1 as [X|X]; [exact X|]. exfalso. apply X. apply start_dom; [exact So1|apply F2].
 Qed.
 
 End R.
